@@ -87,7 +87,6 @@ package fasthttp
 //@   mode skeleton
 //@   safety C08
 //@   requires[positive-limit] 0 < maxBodySize && maxBodySize < MaxInt / 2
-//@   requires[framed] contentLength >= -2
 //@   on call Request.bodyBuffer -> bb:
 //@     nohavoc
 //@     ensures bb != nil
@@ -139,3 +138,17 @@ package fasthttp
 //@     ensures m >= 0 && lr.N >= 0 && m + lr.N == old(lr.N)
 //@   end
 //@   ensures[limit] maxBodySize > 0 && err == nil ==> n <= maxBodySize
+
+// Request.ContinueReadBody (non-streamed request bodies): with a positive limit nothing is read for a Content-Length
+// above it -- neither by the multipart pre-parser nor by ReadBody.
+//@ func Request.ContinueReadBody results err
+//@   property C07
+//@   mode skeleton
+//@   requires[positive-limit] 0 < maxBodySize && maxBodySize < MaxInt / 2
+//@   on call RequestHeader.ContentLength -> n:
+//@     nohavoc
+//@   on call readMultipartForm(rr, bnd, size, maxMem) -> f, e:
+//@     requires[multipart-within-limit] size <= maxBodySize
+//@   on call Request.ReadBody(q, rr, cl, lim) -> e:
+//@     requires[body-limit-passed-on] lim == maxBodySize
+//@   end
